@@ -638,6 +638,8 @@ class Interp:
             cls = self.p.classes[base.qual]
             m = self.p.find_method(base.qual, name)
             if isinstance(m, FuncInfo):
+                if "classmethod" in m.decorators:
+                    return [("val", st, BoundV(base, m))]
                 return [("val", st, FuncV(m))]
             for c in self.p.mro(base.qual):
                 if not c.startswith("ext:") and name in self.p.classes[c].class_attrs:
@@ -691,6 +693,10 @@ class Interp:
                 return outs + [("val", st, st.mem[loc])]
             m = self.p.find_method(qual, name)
             if isinstance(m, FuncInfo):
+                if "staticmethod" in m.decorators:
+                    return outs + [("val", st, FuncV(m))]
+                if "classmethod" in m.decorators:
+                    return outs + [("val", st, BoundV(ClassV(qual), m))]
                 return outs + [("val", st, BoundV(base, m))]
             if isinstance(m, tuple):
                 # method inherited from an external base class
